@@ -56,6 +56,7 @@ type Val struct {
 	ArrOff  int      // offset of the slice inside that array
 	HasArr  bool     // ArrLen/ArrBase/ArrOff are meaningful (ArrLen may be 0)
 	Refl    *ReflVal // reflect.Type / reflect.Value values known on this path
+	NonNil  bool        // interface / pointer values known to be non-nil by construction (errors made by externs)
 	Sub     map[int]Val // struct values: fields whose value is known structurally (dynamic types of interface fields, ...)
 }
 
@@ -280,7 +281,7 @@ type shadowEnt struct {
 }
 
 func structured(v Val) bool {
-	return v.Dyn != nil || v.Payload != nil || v.Addr != nil || v.Refl != nil || v.HasArr || len(v.Sub) > 0 || v.Clo != nil
+	return v.Dyn != nil || v.Payload != nil || v.Addr != nil || v.Refl != nil || v.HasArr || len(v.Sub) > 0 || v.Clo != nil || v.NonNil
 }
 
 // dropShadow forgets structurally known contents of a heap that is havocked or written through an unknown address.
